@@ -15,12 +15,36 @@ structure Item where
   name : String
   order : Int
   tag : Nat
+  value : Int := 0
 deriving DecidableEq, Repr
 
 /-- a `Fields` object -/
 structure St where
   _fields : Dict String Item
   _next : Int
+
+/-- what an instance attribute of a `Fields` object holds: the dict of fields, or an ordinary value -/
+inductive Attr
+  | fields (d : Dict String Item)
+  | val (v : Int)
+
+/-- `self.__dict__` -/
+abbrev ObjDict := Dict String Attr
+
+/-- `name in x` / `x[name]` where `x` should be the dict of fields: anything else has no such operations (`TypeError`) -/
+def asFields : Attr → Except Ubx.Exc (Dict String Item)
+  | .fields d => .ok d
+  | .val _ => .error .typeError
+
+/-- `object.__setattr__(self, name, value)`: an instance attribute -/
+def objectSetattr (d : ObjDict) (name : String) (value : Int) : ObjDict := Dict.setitem d name (.val value)
+
+/-- `object.__getattribute__(self, name)` for instance attributes: `AttributeError` when there is none (class attributes and methods
+    are not modelled) -/
+def objectGetattr (d : ObjDict) (name : String) : Except Ubx.Exc Attr :=
+  match Dict.getitem d name with
+  | .ok a => .ok a
+  | .error _ => .error .attributeError
 
 end Fields
 end Py
